@@ -13,28 +13,28 @@ TB = " Trusted: the harness's own reference model / generators (/verif/internal/
 
 CHECKS = {
  "C01": dict(cat=E, ref="5/C01", tech="differential runtime monitor: cedar-go evaluator vs independent big-integer reference evaluator over exhaustive operator x boundary tables and random type-directed trees; minimal-subterm localisation",
-   text="Every execution of x/exp/eval.Eval on the generated (expression, store, request) cases is compared with an independent reference evaluator (value-vs-error agreement and value equality). Operator x boundary-operand tables are enumerated completely (and once more, each case directly after a failing evaluation at the same operator), random trees to depth 5/7 on top.",
+   text="Every execution of x/exp/eval.Eval on the generated (expression, store, request) cases is compared with an independent reference evaluator (value-vs-error agreement and value equality). Operator x boundary-operand tables are enumerated completely (and once more, each case directly after a failing evaluation at the same operator), random trees to depth 5/7 on top. Sizes stream: every collection / string / chain operator on operands of 0..4097 members around the powers of two, also through a compiled policy.",
    note="Error kinds are statistics only (the property fixes when evaluation fails, not which message)." + TB),
  "C02": dict(cat=E, ref="5/C02", tech="decision-table oracle over exhaustively enumerated class sequences + random policy sets, through every PolicyIterator form; id/position/message checks on diagnostics",
    text="All sequences of (permit|forbid) x (satisfied|unsatisfied|erroring) policies up to length 4/5, in 3 by-construction realisations each, are authorised through *PolicySet, IsAuthorized, NewPolicySetFromBytes, PolicyMap and two custom iterators and compared with the Cedar decision table (decision, exact reason set, exact error set, each with own id and source position, message equal to the solo run); random policy sets with reference-model outcomes on top; sets with a history (replace under an id, remove + add, use in between) answer like fresh sets with the same contents.",
    note="Per-policy outcomes of the enumerated part are fixed by construction against a fixed store/request." + TB),
  "C03": dict(cat=E, ref="5/C03", tech="exhaustive small-graph enumeration against a bitmask reachability model, logical step budget on EntityGetter.Get as non-termination witness; operator, set, is-in, scope and batch (partial-evaluation) paths",
-   text="All parent digraphs on <=4 nodes x all presence subsets x all ordered pairs for `a in b`; set targets, `is T in`, every scope form through Authorize and through batch.Authorize (partial evaluation) on all digraphs with <=3 (quick) / 4 (thorough) nodes; random 5-8 node graphs. Nodes carry equal ids under different entity types. On the <=3-node graphs the operator forms are also decided inside when-clauses through cedar.Authorize (compiled, constant-folded path) and every set query is repeated directly after a membership test that failed with a type error; one compiled policy object is asked against all 3-node stores in turn.",
+   text="All parent digraphs on <=4 nodes x all presence subsets x all ordered pairs for `a in b`; set targets, `is T in`, every scope form through Authorize and through batch.Authorize (partial evaluation) on all digraphs with <=3 (quick) / 4 (thorough) nodes; random 5-8 node graphs. Nodes carry equal ids under different entity types. On the <=3-node graphs the operator forms are also decided inside when-clauses through cedar.Authorize (compiled, constant-folded path) and every set query is repeated directly after a membership test that failed with a type error; one compiled policy object is asked against all 3-node stores in turn. Wide-tiers stream: T tiers of W entities each a child of every entity of the next tier (W^T paths), decided on the same Get budget.",
    note="Non-termination is decided by a logical budget of 64(n+1)^2 Get calls, no clock." + TB),
  "C04": dict(cat=E, ref="5/C04", tech="differential monitor: compiled (folded) policy via Authorize vs direct evaluation of the original tree vs hook-exposed folded AST, in 8 environments per policy incl. the empty store; AST/text/JSON fingerprints before/after; type-confused twin compiled after its original",
-   text="For generated policies biased to what the folder touches (closed, closed-erroring, short-circuit with skipped or evaluated ill-typed operands, absorbing constants on the right, store-dependent constants, reflexive membership, projections out of composite literals with a failing sibling) the outcome class of the compiled policy equals direct evaluation in every environment; the caller's AST and its renderings are unchanged.",
+   text="For generated policies biased to what the folder touches (closed, closed-erroring, short-circuit with skipped or evaluated ill-typed operands, absorbing constants on the right, store-dependent constants, reflexive membership, projections out of composite literals with a failing sibling) the outcome class of the compiled policy equals direct evaluation in every environment; the caller's AST and its renderings are unchanged. Constant-chains stream: (x op c1) op c2 with x from the request at the edges of the 64-bit range.",
    note="Direct evaluation of the original tree is the property's own reference; the reference model only arbitrates in reports." + TB),
  "C05": dict(cat=F, ref="5/C05", tech="brute-force oracle: the harness enumerates the Cartesian product and substitutes itself, compares the multiset of callbacks with cedar.Authorize per concrete request; fault injection at every callback index and at every context poll",
-   text="For generated (template, policy set, store) triples - variables in every request part, nested in records/sets, repeated, several variables, empty/singleton lists - exactly one callback per product element with the substituted request, the substitution, the ordinary authorizer's decision and reason set; callback failure at every k and cancellation at every poll stop enumeration and return that error. A directed template adds variables two container levels down and non-entity values in entity positions under when/unless.",
+   text="For generated (template, policy set, store) triples - variables in every request part, nested in records/sets, repeated, several variables, empty/singleton lists - exactly one callback per product element with the substituted request, the substitution, the ordinary authorizer's decision and reason set; callback failure at every k and cancellation at every poll stop enumeration and return that error. A directed template adds variables two container levels down and non-entity values in entity positions under when/unless. Shared-slices stream: tiered policies whose in-lists are prefixes / suffixes of one caller-owned slice.",
    note="Fault surface is the API boundary (callback, context.Context)." + TB),
  "C06": dict(cat=E, ref="5/C06", tech="completion-enumeration oracle over PartialPolicy residuals (sat(residual,c)==sat(policy,c), drop => never satisfied, ignore only widens permits) + directed enumeration of strict nodes mixing unknown and ignored operands",
-   text="For generated policies x partial environments (unknown request parts, unknowns nested in context records/sets, ignored parts) every completion from a policy-derived universe (<=64 each) is checked: kept residual equivalent, dropped policy unsatisfiable, ignored parts only widen permits. A directed stream enumerates 11+ strict node shapes x operand orders x effect x when/unless x unknown/ignored modes, incl. if-branches over known vs partly unknown records and unknowns inside members of sets.",
+   text="For generated policies x partial environments (unknown request parts, unknowns nested in context records/sets, ignored parts) every completion from a policy-derived universe (<=64 each) is checked: kept residual equivalent, dropped policy unsatisfiable, ignored parts only widen permits. A directed stream enumerates 11+ strict node shapes x operand orders x effect x when/unless x unknown/ignored modes, incl. if-branches over known vs partly unknown records and unknowns inside members of sets. Directed shapes include a set that holds an unknown compared as a whole with a smaller known set (deduplication).",
    note="Residuals are run by cedar-go's ordinary evaluator (they contain its partial-error nodes); the original's outcome comes from the reference model and is cross-checked." + TB),
  "C07": dict(cat=E, ref="5/C07", tech="parse(render(T)) == T with an independent grammar-driven printer (full / minimal parentheses / layout noise), exhaustive parent x child x position operator triples, reject list",
-   text="ASTs built from harness terms are printed by an independent printer in three renderings and must parse to exactly that AST; every operator pairing in every operand position is enumerated; texts outside the grammar must be rejected (incl. each reserved word in each of 20 identifier positions); 1200-fold flat repetitions of 18 templates (documents, policy sets, decoder streams, set/record/&&/when-clause lists) must parse, repetition by repetition and in document order, to the template's own tree; leading-zero integers are decimal, other number spellings and duplicate annotations (also with reserved-word keys) are rejected.",
+   text="ASTs built from harness terms are printed by an independent printer in three renderings and must parse to exactly that AST; every operator pairing in every operand position is enumerated; texts outside the grammar must be rejected (incl. each reserved word in each of 20 identifier positions); 1200-fold flat repetitions of 18 templates (documents, policy sets, decoder streams, set/record/&&/when-clause lists) must parse, repetition by repetition and in document order, to the template's own tree; leading-zero integers are decimal, other number spellings and duplicate annotations (also with reserved-word keys) are rejected. Comment-bodies stream: 28 comment forms in every token gap of small documents parse to the same policies.",
    note="Only texts whose grammar-prescribed tree is beyond dispute are emitted (DESIGN section 10)." + TB),
  "C08": dict(cat=E, ref="5/C08", tech="round-trip monitor MarshalCedar -> UnmarshalCedar -> MarshalCedar with semantic comparison under >=6 environments and byte-identity of the second rendering; list/set/encoder order",
-   text="Policies from three sources (programmatic ASTs with arbitrary values, parsed texts, decoded JSON) must re-parse, keep effect/annotations/scope, evaluate identically and re-render byte-identically; lists, sets and Encoder/Decoder keep documented order. Directed: every value under every parent, all two-level nestings of 43 node constructors, regrouping-sensitive operator pairs, every string class in every string position, and 0.3-10 KiB renderings of 1-4-byte characters at every alignment to the tokenizer's read buffer; documents are also decoded into Policy values that already hold another policy; a list written through one Encoder across injected write failures (with retries) decodes to the list.",
+   text="Policies from three sources (programmatic ASTs with arbitrary values, parsed texts, decoded JSON) must re-parse, keep effect/annotations/scope, evaluate identically and re-render byte-identically; lists, sets and Encoder/Decoder keep documented order. Directed: every value under every parent, all two-level nestings of 43 node constructors, regrouping-sensitive operator pairs, every string class in every string position, and 0.3-10 KiB renderings of 1-4-byte characters at every alignment to the tokenizer's read buffer; documents are also decoded into Policy values that already hold another policy; a list written through one Encoder across injected write failures (with retries) decodes to the list. Bulk stream: 1100..2600 policies through PolicyList / PolicySet / Encoder renderings and one policy with that many clauses.",
    note="Meaning is compared by evaluation (value or failure) in environments derived from the policy." + TB),
  "C09": dict(cat=E, ref="5/C09", tech="AST-equality round trip through the JSON codec, independent spec-conformant JSON encoder as second source, text<->JSON commuting squares, authorization agreement",
    text="decode(encode(p)) has the identical AST; policy-set ids are preserved (decoding into a zero, a fresh and an already used PolicySet yields exactly the document); text->JSON->text and JSON->text->JSON commute; an independent JSON encoder's documents decode to the builder AST; all encodings authorize identically. 1200-fold flat documents (set / record / clause / policy-set lists, && and + chains) decode to 1200 copies of the template; a set's JSON after replace / remove / add holds its current contents.",
@@ -55,10 +55,10 @@ CHECKS = {
    text="Decision, reason set, error set with messages and all marshalled bytes are compared across R=24/64 repetitions, re-decodings and insertion orders for inputs biased to where map order can leak; policy sets with equal contents built along different histories encode alike; a fixed corpus encodes to the same digests in freshly started child processes (one with a non-UTC local zone); one Encoder across injected write failures hands the writer what a fresh encoder writes; the encoders of one object in random interleavings never change each other's output; a variable and an ignored value in one batch context record give one result set over 64 identical calls.",
    note="A single case misses a 2-way map-order leak with probability (7/8)^(R-1) (about 4.6% at R=24, 2e-4 at R=64: Go starts iterating a small map at a random slot of an 8-slot bucket); every leak class is exercised by hundreds of cases per run." + TB),
  "C15": dict(cat=E, ref="5/C15", tech="soundness monitor: validator verdict vs observed evaluation error class (sentinel hook) on by-construction schema-conforming requests and stores, with single-step type-breaking mutations",
-   text="For generated schemas and policies the validator accepts (strict and permissive), evaluation on schema-conforming data never fails with type / unknown-function / arity / missing attribute-or-tag errors. A completely enumerated shapes stream (union types over a type hierarchy, capability leaks through boolean combinations, guards in other clauses, look-alike tag keys, scope `in` over a four-level type chain, a typing table of 53 operators over operands of 15 kinds of type) targets the places where the validator decides not to demand something.",
+   text="For generated schemas and policies the validator accepts (strict and permissive), evaluation on schema-conforming data never fails with type / unknown-function / arity / missing attribute-or-tag errors. A completely enumerated shapes stream (union types over a type hierarchy, capability leaks through boolean combinations, guards in other clauses, look-alike tag keys, scope `in` over a four-level type chain, a typing table of 53 operators over operands of 15 kinds of type) targets the places where the validator decides not to demand something. Eqguard family: equality of attributes whose types merely look disjoint (sets over different element types, all-optional records) guarding an ill-typed tail, with empty sets frequent in conforming data.",
    note="Conforming data are additionally accepted by validator.Entities/Request; disagreement there is inconclusive." + TB),
  "C16": dict(cat=F, ref="5/C16", tech="termination/no-crash monitor in journalled child processes over exhaustive small schema graphs (entity hierarchies, common types, action groups) x policies/entities/requests",
-   text="Resolve and every validator entry point return normally (result or error) for all small schema graphs incl. cycles, self references, undefined references (incl. unqualified names that dangle across namespaces), references mentioned twice and shadowing, and for JSON-decoded policies with set/record/extension literals.",
+   text="Resolve and every validator entry point return normally (result or error) for all small schema graphs incl. cycles, self references, undefined references (incl. unqualified names that dangle across namespaces), references mentioned twice and shadowing, and for JSON-decoded policies with set/record/extension literals. Ladder schemas: 6..48 levels of two action groups / entity types, each a member of both of the level above.",
    note="Fatal stack overflows are attributed through an on-disk journal; watchdog hits count only when reproduced alone." + TB),
  "C17": dict(cat=E, ref="5/C17", tech="round-trip monitor over generated schema ASTs: Resolve(parse(render(s))) ~ Resolve(s) for text, JSON and cross conversions; byte-identical second rendering",
    text="Generated schemas (namespaces, common types, optional attributes, enums, action groups, annotations, names needing quotes) survive both codecs and both conversions with the same resolved schema and stable bytes, also when parsed into a Schema value that already resolved another schema; flat schemas with 1100-2600 type expressions take the same paths; names that merely contain a reserved word, and a common type next to an entity type of the same name (where the text format can tell them apart), are included.",
@@ -70,7 +70,7 @@ CHECKS = {
    text="Zero race reports over 150/3000 rounds of 16-64 goroutines mixing Authorize, batch.Authorize, marshalling, accessors and validation on shared inputs; every concurrent call returns its solo result; inputs (policies incl. unexported evaluator trees, ASTs, entities, requests, values, schema; the Validator receivers are not inputs) are unchanged. Each world holds random policies plus text-loaded policies written against a schema with a three-level action hierarchy and policies whose extension constructors and patterns work on request data that differs per request.",
    note="Race reports are process-external evidence (log files of a -race child)." + TB),
  "C20": dict(cat=E, ref="5/C20", tech="model-based history checking: an executable id->policy map stepped alongside PolicySet operations with authorization probes and marshal/unmarshal round trips spliced in; exhaustive short histories + random long ones",
-   text="Every operation returns what the map model predicts after any history; authorization depends only on current contents; loader ids policy0.. with file name in every position; MarshalCedar in lexicographic id order; Map() copies independent; an iterator obtained earlier yields the current contents or those at the time of the call; documents of 31-700 tagged policies load as policy0.. in document order with their own lines.",
+   text="Every operation returns what the map model predicts after any history; authorization depends only on current contents; loader ids policy0.. with file name in every position; MarshalCedar in lexicographic id order; Map() copies independent; an iterator obtained earlier yields the current contents or those at the time of the call; documents of 31-700 tagged policies load as policy0.. in document order with their own lines. Iter-mutation stream: walks over All() whose body removes, replaces and adds other ids (Go-map contract).",
    note="Policies carry by-construction outcomes so expected decisions follow from the model's contents." + TB),
 }
 
